@@ -2172,7 +2172,27 @@ def c06u(F, R):
                             and any(u.get("k") == "Unary" and u["op"] == "Not" for u in c):
                         first_site = min(i for i, s2 in enumerate(stmts) if any(y is sites[0] for y in walk(s2, pats=False))) if any(any(y is sites[0] for y in walk(s2, pats=False)) for s2 in stmts) else 10 ** 6
                         if stmts.index(st) < first_site:
-                            waits = True
+                            # the condition itself, evaluated: a node (not an entry) with predecessors none of which is evaluated
+                            # must wait, and a node with an evaluated predecessor must not
+                            vs_ = _visited_sets(f)
+
+                            def classify(x):
+                                if x.get("k") == "MethodCall" and x["name"].startswith("is_") and x["name"].endswith("entry"):
+                                    return "entry"
+                                if x.get("k") == "MethodCall" and x["name"] == "is_empty" and mentions_call(x["recv"], "prevs"):
+                                    return "noprevs"
+                                if x.get("k") == "MethodCall" and x["name"] == "any" and mentions_call(x["recv"], "prevs"):
+                                    return "anyvisited"
+                                return None
+                            try:
+                                must = bool_eval(e["cond"], classify, {"entry": False, "noprevs": False, "anyvisited": False})
+                                mustnot = bool_eval(e["cond"], classify, {"entry": False, "noprevs": False, "anyvisited": True})
+                                if must is True and mustnot is False:
+                                    waits = True
+                                else:
+                                    R.bad(name + "|wait-condition", f"{name}: the wait test answers {must} for a node whose predecessors are all unevaluated (must be true) and {mustnot} for a node with an evaluated predecessor (must be false)", loc(e))
+                            except BoolUnx as ex:
+                                R.bad(name + "|wait-condition|unextractable", f"UNEXTRACTABLE: {name} wait condition ({ex})", loc(e))
         if waits:
             R.ok(name, detail=f"{name}: {len(sites)} intersection meet(s) over evaluated predecessors; a node without an evaluated predecessor waits", where=loc(sites[0]))
         else:
@@ -2714,6 +2734,50 @@ def c02n(F, R):
                     R.bad(key, f"`impl {tr} for RegisterSet` computes the Boolean function {table} on (self, rhs) = (0,0),(0,1),(1,0),(1,1); {base} is {exp}: every dataflow equation written with this operator means something else", g["sp"])
             except U as ex:
                 R.bad(key + "|unextractable", f"UNEXTRACTABLE: {tr} for RegisterSet ({ex})", g["sp"])
+    # single-register updates and the membership test
+    inh = inherent_methods(F, RS)
+    for mname, expect in (("set_register", lambda a, b: a | b), ("unset_register", lambda a, b: a & (1 - b)), ("contains", lambda a, b: a & b)):
+        pth = inh.get(mname)
+        if not pth:
+            continue
+        g = F.fns.get(pth)
+        n += 1
+
+        class U2(Exception):
+            pass
+
+        def ev2(e, a, b):
+            e = peel(e)
+            while e.get("k") == "Block" and e.get("expr") is not None and not e.get("stmts"):
+                e = peel(e["expr"])
+            k = e.get("k")
+            if k == "Block" and len(e.get("stmts", [])) == 1 and e.get("expr") is None:
+                return ev2(e["stmts"][0].get("e") or {}, a, b)
+            if k == "Field" and e["name"] == "registers" and ekey(e["e"]).lstrip("&*") == "self":
+                return a
+            if k == "Binary" and e["op"] == "Shl" and lit_value(e["a"]) == 1 and mentions_call(e["b"], "to_num"):
+                return b
+            if k == "Binary" and e["op"] in ("BitAnd", "BitOr", "BitXor"):
+                x, y = ev2(e["a"], a, b), ev2(e["b"], a, b)
+                return {"BitAnd": x & y, "BitOr": x | y, "BitXor": x ^ y}[e["op"]]
+            if k == "Unary" and e["op"] == "Not":
+                return 1 - ev2(e["a"], a, b)
+            if k == "AssignOp" and e["op"] in ("BitAndAssign", "BitOrAssign", "BitXorAssign"):
+                l, r = ev2(e["l"], a, b), ev2(e["r"], a, b)
+                return {"BitAndAssign": l & r, "BitOrAssign": l | r, "BitXorAssign": l ^ r}[e["op"]]
+            if k == "Binary" and e["op"] in ("Ne", "Eq") and lit_value(e["b"]) == 0:
+                v = ev2(e["a"], a, b)
+                return (1 if v != 0 else 0) if e["op"] == "Ne" else (1 if v == 0 else 0)
+            raise U2(ekey(e)[:50])
+        try:
+            table = [ev2(g["hir"]["value"], a, b) for a in (0, 1) for b in (0, 1)]
+            exp = [expect(a, b) for a in (0, 1) for b in (0, 1)]
+            if table == exp:
+                R.ok(f"RegisterSet|{mname}", detail=f"{mname}: truth table {table}", where=g["sp"])
+            else:
+                R.bad(f"RegisterSet|{mname}", f"RegisterSet::{mname} computes {table} on (bit in set, bit of the register) = (0,0),(0,1),(1,0),(1,1); expected {exp}", g["sp"])
+        except U2 as ex:
+            R.bad(f"RegisterSet|{mname}|unextractable", f"UNEXTRACTABLE: RegisterSet::{mname} ({ex})", g["sp"])
     # the value map's `&=`: keeps an entry iff the other map has the same key with an equal value
     AVM = "riscv_analysis::cfg::available_value_map::AvailableValueMap"
     for i in F.impls:
